@@ -58,8 +58,9 @@ fn arg<'a>(args: &'a [String], name: &str) -> Option<&'a str> {
 
 fn case_json(c: &Case) -> String {
     format!(
-        "{{\"family\":{},\"lines\":[{}],\"aux\":[{}]}}",
+        "{{\"family\":{},\"no_model\":{},\"lines\":[{}],\"aux\":[{}]}}",
         json_str(c.family),
+        c.no_model,
         c.lines.iter().map(|l| json_str(l)).collect::<Vec<_>>().join(","),
         c.aux.iter().map(|l| json_str(l)).collect::<Vec<_>>().join(",")
     )
@@ -127,7 +128,7 @@ fn parse_case_file(text: &str) -> Option<Case> {
     }
     let (fam, _) = read_string(text.as_bytes(), after_key(text, "family")?)?;
     let family: &'static str = Box::leak(fam.into_boxed_str());
-    Some(Case { family, lines: strings_after(text, "lines")?, aux: strings_after(text, "aux").unwrap_or_default(), no_model: false })
+    Some(Case { family, lines: strings_after(text, "lines")?, aux: strings_after(text, "aux").unwrap_or_default(), no_model: text.contains("\"no_model\":true") || text.contains("\"no_model\": true") })
 }
 
 /// rule for "non-trivial": the implementation's responses contain at least one result that is not
@@ -260,19 +261,39 @@ fn run_one_case(prop: &str, case: &Case, model: &mut model::ModelProc) -> Result
     Ok(check_case(prop, case, &io, &mo))
 }
 
-/// delta-debugging over the byte-string tokens of the first line (cases without aux only)
+/// index of the first data token of a request line (tokens before it are op, capacity, kind, call
+/// script …) and whether the last token is a count that must be kept
+fn data_token_range(line: &str) -> Option<(usize, bool)> {
+    let op = line.split(' ').next().unwrap_or("");
+    match op {
+        "dec" => Some((2, false)),
+        "rdr" | "sml" => Some((4, false)),
+        "parse" | "decode" => Some((1, false)),
+        "stream" | "enci" => Some((1, true)),
+        "iter" => Some((2, true)),
+        "enc" => Some((2, false)),
+        _ => None,
+    }
+}
+
+/// delta-debugging over the byte-string tokens of single-line cases (cases with side information,
+/// several lines, huge inputs or unknown ops are reported as found)
 fn shrink(prop: &str, f: &Failure, model: &mut model::ModelProc) -> Failure {
-    // no shrinking for cases with side information, many lines, or huge inputs (each attempt would
-    // re-run gigabytes)
     let huge = f.case.no_model || f.case.lines.iter().any(|l| l.len() > 20_000 || l.split(|c: char| c == '*' || c == ',' || c == ' ').any(|t| t.len() >= 6 && t.chars().all(|c| c.is_ascii_digit())));
-    if !f.case.aux.is_empty() || f.case.lines.len() > 4 || huge {
+    if !f.case.aux.is_empty() || f.case.lines.len() != 1 || huge {
         return f.clone();
     }
+    let (first, keep_last) = match data_token_range(&f.case.lines[0]) {
+        Some(r) => r,
+        None => return f.clone(),
+    };
     let mut best = f.clone();
     let mut budget = 250;
     'outer: loop {
         let toks: Vec<String> = best.case.lines[0].split(' ').map(|s| s.to_string()).collect();
-        for (ti, t) in toks.iter().enumerate().skip(1) {
+        let last = if keep_last { toks.len().saturating_sub(1) } else { toks.len() };
+        for ti in first..last {
+            let t = &toks[ti];
             let bytes = match untok(t) {
                 Some(b) if b.len() >= 2 && t.chars().all(|c| c.is_ascii_hexdigit() || c == ',' || c == '*') => b,
                 _ => continue,
@@ -289,15 +310,11 @@ fn shrink(prop: &str, f: &Failure, model: &mut model::ModelProc) -> Failure {
                     nb.drain(start..start + chunk);
                     let mut nt = toks.clone();
                     nt[ti] = tok(&nb);
-                    let newline = nt.join(" ");
-                    // keep the other lines in step if they carry the same token
                     let mut c = best.case.clone();
-                    for l in c.lines.iter_mut() {
-                        *l = l.replace(t.as_str(), &tok(&nb));
-                    }
-                    c.lines[0] = newline;
+                    c.lines[0] = nt.join(" ");
                     if let Ok(Some(nf)) = run_one_case(prop, &c, model) {
-                        if nf.kind == best.kind {
+                        let broken = nf.impl_outs.iter().chain(nf.model_outs.iter()).any(|o| o.contains("bad-request") || o.contains("unsupported-capacity"));
+                        if nf.kind == best.kind && !broken {
                             best = nf;
                             continue 'outer;
                         }
@@ -434,7 +451,10 @@ fn cmd_run(args: &[String]) -> i32 {
             Err(_) => infra = Some("worker thread panicked".into()),
         }
     }
-    if let Some(e) = &infra {
+    if total.cases == 0 && infra.is_none() {
+        infra = Some(format!("no cases generated for property {:?} (unknown id?)", prop));
+    }
+    if let (Some(e), true) = (&infra, fails.iter().all(|f| f.kind != "oracle")) {
         eprintln!("ERROR {}", e);
         let _ = std::fs::write(format!("{}/result.json", outdir), format!("{{\"error\":{}}}", json_str(e)));
         return 2;
@@ -486,8 +506,17 @@ fn cmd_replay(args: &[String]) -> i32 {
             return 2;
         }
     };
+    if case.lines.is_empty() {
+        println!("replay file has no request line (the crashing request could not be isolated)");
+        return 2;
+    }
     let io: Vec<implrun::ImplOut> = case.lines.iter().map(|l| implrun::run(l)).collect();
-    let mo = model::run_batch(&model, &case.lines).unwrap_or_else(|e| vec![e; case.lines.len()]);
+    let mo = if case.no_model {
+        println!("(implementation-only case: decided by the oracle, not sent to the model)");
+        io.iter().map(|o| o.text.clone()).collect()
+    } else {
+        model::run_batch(&model, &case.lines).unwrap_or_else(|e| vec![e; case.lines.len()])
+    };
     for (k, l) in case.lines.iter().enumerate() {
         println!("request  {}", l);
         println!("  impl   {}", io[k].text);
